@@ -25,7 +25,8 @@ comparison; very large ensembles m = 46340, 46341, 65536 (thorough: 92683, 13107
 random / interleaved, where any int product of the sizes would overflow; members and samples are re-ordered at
 random and in structured ways (sorted, reversed, last two swapped, smallest value last, rotations, one value
 out of place); malformed calls (eps < 1e-20, no columns, no rows). PIT: n = 1..30, m = 1..12, observations on
-the members' grid (exact ties, resolved by the jitter), cst in [0, 0.5] and above (clamped), censoring thresholds
+the members' grid (exact ties, resolved by the jitter), at small magnitudes and as large-magnitude affine images
+(1e4 .. 1e12, gaps far above the jitter but below 1e-10 x |value|), cst in [0, 0.5] and above (clamped), censoring thresholds
 on and off the grid. Uniform samples: 1..300 values in (0, 1) incl. ties and values within 1e-12 of the ends,
 shuffled; rejection stream with -0.1, 1.5, 1+2^-52, -1e-300, NaN, +-inf at random positions.
 A case is non-trivial when the call is accepted and returns a finite value from a non-degenerate input.
@@ -565,12 +566,20 @@ def body(ctx):
     for it in range(ctx.scale(600, 6000)):
         n = rng.choice([1, 2, 3, 5, 10, 30])
         m = rng.choice([1, 2, 3, 5, 8, 12])
-        step = rng.choice([1.0, 0.5, 0.1])
         nlev = rng.choice([3, 6, 40])
-        ens = np.array([[rng.randint(0, nlev) * step for _ in range(m)] for _ in range(n)])
-        obs = np.array([rng.randint(-1, nlev + 1) * step for _ in range(n)])
+        # every value is off + K*step for an integer level K: small magnitudes, or large-magnitude affine images of the
+        # same levels whose gaps are far above the 1e-10 jitter in absolute terms but below 1e-10 * |value|
+        if rng.random() < 0.65:
+            off, step, mag = 0.0, rng.choice([1.0, 0.5, 0.1]), "small"
+        else:
+            off, step = rng.choice([(1e6, 1e-6), (1e6, 5e-7), (-1e6, 2e-6), (1e9, 0.01), (-3e9, 0.05), (1e4, 2e-8),
+                                    (1e12, 10.0), (2.5e7, 1e-4)])
+            mag = "large"
+        lev = lambda K: off + K * step
+        ens = np.array([[lev(rng.randint(0, nlev)) for _ in range(m)] for _ in range(n)])
+        obs = np.array([lev(rng.randint(-1, nlev + 1)) for _ in range(n)])
         cst = rng.choice([0.0, 0.3, 0.5, 0.1, 0.25, 0.4999, 0.7, 1.0])
-        censor = rng.choice([0.0, 0.0, step, 2 * step, -1.0, step / 2, nlev * step])
+        censor = rng.choice([0.0, lev(0), lev(0), lev(1), lev(2), off - 1.0, lev(0.5), lev(nlev), off - abs(off) - 1.0])
         random_ = rng.random() < 0.6
         seed = rng.randrange(2 ** 31)
         case = {"obs": obs.tolist(), "ens": ens.tolist(), "cst": cst, "censor": censor, "random": random_, "npseed": seed}
@@ -590,8 +599,9 @@ def body(ctx):
                 # within 2 EPS may fall on either side. The count implied by the PIT value must be an integer between
                 # the two bounds; it is compared across forecasts only where the bounds coincide.
                 if 0.0 <= cst <= 0.5:
-                    lo = int(np.sum(ens[i] < obs[i] - 2 * EPS_PIT))
-                    hi = int(np.sum(ens[i] <= obs[i] + 2 * EPS_PIT))
+                    margin = max(2 * EPS_PIT, 4 * float(np.spacing(abs(obs[i]))))   # jitter + rounding of value+jitter
+                    lo = int(np.sum(ens[i] < obs[i] - margin))
+                    hi = int(np.sum(ens[i] <= obs[i] + margin))
                     kimp = pits[i] * (1.0 - cst + m) - 0.5 + cst
                     kr = int(round(kimp)) if math.isfinite(kimp) else -1
                     if not (abs(kimp - kr) <= 1e-9 * (m + 1) and lo <= kr <= hi):
@@ -612,7 +622,12 @@ def body(ctx):
             # oracle: pseudo flag; values on the grid are never within 1e-10 of the threshold unless equal to it
             want = (obs[i] <= censor) and bool(np.any(ens[i] <= censor))
             if bool(sudo[i]) != want:
-                ctx.finding("pit/pseudo_flag", "pseudo-PIT flag differs from (obs <= censor and some member <= censor)",
+                # censor + EPS == censor in double precision from |censor| ~ 1.7e6: the strict tests then miss values
+                # exactly at the threshold (known finding; the exact model satisfies the clause)
+                absorbed = (censor + EPS_PIT == censor) and want and not bool(sudo[i]) and \
+                    (obs[i] == censor or not np.any(ens[i] < censor))
+                ctx.finding("pit/pseudo_flag" + ("/eps_absorbed_at_large_threshold" if absorbed else ""),
+                            "pseudo-PIT flag differs from (obs <= censor and some member <= censor)",
                             {**case, "i": i, "flag": bool(sudo[i])})
             if not (0.0 <= pits[i] <= 1.0):
                 if cst <= 0.5:
@@ -628,7 +643,7 @@ def body(ctx):
                 if cnts[i][0] == cnts[k][0] and pits[i] != pits[k]:
                     ctx.finding("pit/not_function_of_count", "PIT differs for equal counts", {**case, "i": i, "k": k})
         ctx.count(("pit", obs.tobytes(), ens.tobytes(), cst, censor, random_, seed), True,
-                  f"pit/random={random_}/sudo={'some' if sudo.any() else 'none'}",
+                  f"pit/{mag}/random={random_}/sudo={'some' if sudo.any() else 'none'}",
                   sample={"obs": obs[:3].tolist(), "ens": ens[:2].tolist(), "cst": cst, "censor": censor,
                           "random": random_, "pits": pits[:3].tolist()})
 
